@@ -145,28 +145,26 @@ def r1(R1, cfg, F):
     ok = len(de) == 1 and len(fr) == 1
     why = 'shape (one dealloc, one Vec::from_raw_parts)'
     if ok:
-        # switch on capacity != 0
-        sw = None
-        for bb, t in ds.terms():
-            if t['k'] == 'switch' and not ds.blocks[bb]['cleanup']:
-                l = t['discr']['place']['l'] if t['discr']['k'] in ('copy', 'move') else None
-                for d in ds.defs_of(l) if l is not None else []:
-                    if d[0] == 'stmt' and d[3]['rv']['k'] == 'binop' and d[3]['rv']['op'] in ('Ne', 'Eq', 'Gt', 'Lt') and \
-                            'capacity' in (ds.access_path(d[3]['rv']['a']) or []) + (ds.access_path(d[3]['rv']['b']) or []) and \
-                            any(o.get('text', '').startswith('0') for o in (d[3]['rv']['a'], d[3]['rv']['b'])):
-                        sw = (bb, d[3]['rv']['op'])
-        ok = sw is not None
-        why = 'no test of the stored capacity against 0'
+        # the Vec is rebuilt exactly when the stored capacity is not 0 (however the test is spelled)
+        cg = [x for x in common.comparison_guards(ds, fr[0].bb) if 'capacity' in (x[0] or []) and x[2] == '0']
+        ok = len(cg) == 1 and cg[0][1] in ('Ne', 'Gt')
+        why = 'no test of the stored capacity against 0 guards the rebuilding of the Vec'
         if ok:
-            bb, op = sw
-            nz = [d for d, lab in ds.edges(bb) if (lab != 'sw:0') == (op in ('Ne', 'Gt'))]
+            bb = cg[0][3]
+            nz = [cg[0][4]]
             z = [d for d, lab in ds.edges(bb) if d not in nz]
-            ok = len(nz) == 1 and len(z) == 1 and fr[0].bb in ds.reachable(nz) and fr[0].bb not in ds.reachable(z, removed_blocks=[de[0].bb])
+            ok = len(z) == 1 and fr[0].bb not in ds.reachable(z, removed_blocks=[de[0].bb])
             why = 'the Vec must be rebuilt exactly when capacity != 0'
             if ok:
-                a = [ds.access_path(x) for x in fr[0].args]
-                ok = all(x and x[0].startswith('call@bb') for x in a) and [x[-1] if x[-1] not in ('&',) else x[-2] for x in [ds.access_path(fr[0].args[1]), ds.access_path(fr[0].args[2])]] == ['len', 'capacity'] \
-                    and 'ptr' in str(ds.origins(fr[0].args[0])) or ('ptr' in (ds.access_path({'k': 'copy', 'place': ds.defs_of(fr[0].args[0]['place']['l'])[0][3]['rv']['op']['place']}) or []))
+                a = [common.strip_refs(common.deep_path(ds, x)) for x in fr[0].args]
+                p0 = a[0]
+                if not p0 or 'ptr' not in p0:
+                    # through the `as *mut u8` cast
+                    d0 = [d for d in ds.defs_of(fr[0].args[0]['place']['l']) if d[0] == 'stmt'] if fr[0].args[0]['k'] in ('copy', 'move') else []
+                    if len(d0) == 1 and d0[0][3]['rv']['k'] == 'cast':
+                        p0 = common.strip_refs(common.deep_path(ds, d0[0][3]['rv']['op']))
+                ok = all(x and x[0].startswith('call@bb') for x in (p0, a[1], a[2])) and p0[-1:] == ['ptr'] and a[1][-1:] == ['len'] and a[2][-1:] == ['capacity'] \
+                    and p0[0] == a[1][0] == a[2][0]
                 dropped = any(u[0] == 'call' and u[2].callee and u[2].callee.best == 'std::mem::drop' for l in ds.flows_to(fr[0].dest['l']) for u in ds.uses_of(l)) or \
                     any(d.term['place']['l'] in ds.flows_to(fr[0].dest['l']) for d in ds.drops())
                 ok = ok and dropped
@@ -177,7 +175,7 @@ def r1(R1, cfg, F):
                 kinds = {}
                 for r in ds.call_roots(lay):
                     k = 'header-only' if (r.callee.best == 'std::alloc::Layout::new' and r.callee.args == ['utils::bytes::Inner']) else \
-                        ('header+len' if r.callee.best == B + '::get_inner_layout' and 'len' in (ds.access_path(r.args[0]) or []) else r.callee.best)
+                        ('header+len' if r.callee.best == B + '::get_inner_layout' and 'len' in (common.deep_path(ds, r.args[0]) or []) else r.callee.best)
                     arm = 'cap!=0' if r.bb in ds.reachable(nz, removed_blocks=[de[0].bb]) else ('cap==0' if r.bb in ds.reachable(z, removed_blocks=[de[0].bb]) else '?')
                     kinds[arm] = k
                 ok = kinds == {'cap!=0': 'header-only', 'cap==0': 'header+len'}
@@ -223,22 +221,12 @@ def r2(R2, cfg, F):
         ok = len(ordv) == 1 and ordv <= STRONG
         why = 'the decrement uses ordering %s; it must be Release / AcqRel / SeqCst so that earlier uses of the buffer happen-before the free' % sorted(ordv)
     if ok:
-        sw = None
-        for bb, t in dbd.terms():
-            if t['k'] == 'switch':
-                l = t['discr']['place']['l'] if t['discr']['k'] in ('copy', 'move') else None
-                for d in dbd.defs_of(l) if l is not None else []:
-                    if d[0] == 'stmt' and d[3]['rv']['k'] == 'binop' and d[3]['rv']['op'] == 'Eq':
-                        ops = [d[3]['rv']['a'], d[3]['rv']['b']]
-                        if any(dbd.access_path(o) == ['call@bb%d' % fsb[0].bb] for o in ops) and any(o.get('text', '').startswith('1_') or o.get('text') == '1' for o in ops):
-                            sw = bb
-        ok = sw is not None
+        cg = [x for x in common.comparison_guards(dbd, sl[0].bb) if x[0] == ['call@bb%d' % fsb[0].bb] and x[2] == '1' and x[1] == 'Eq']
+        ok = len(cg) == 1
         why = 'drop_slow must be guarded by `previous count == 1`'
         if ok:
-            true_t = [d for d, lab in dbd.edges(sw) if lab != 'sw:0']
-            false_t = [d for d, lab in dbd.edges(sw) if lab == 'sw:0']
-            ok = len(true_t) == 1 and sl[0].bb not in dbd.reachable([0], removed_edges=[(sw, true_t[0])]) and sl[0].bb not in dbd.reachable(false_t) \
-                and not (dbd.reachable(true_t, removed_blocks=[sl[0].bb]) & set(dbd.return_blocks()))
+            g = [x for x in common.guards_of(dbd, sl[0].bb) if x[0] == cg[0][3]]
+            ok = common.inevitable(dbd, g, sl[0].bb)
             why = 'drop_slow must run exactly when the previous count was 1'
     R2.check(ok, cfg, dbd.path, 'drop=fetch_sub(1,Release+);slow-iff-prev==1', 'Drop: %s' % why, dbd.loc())
     acq = [c for c in ds.calls() if c.callee and ((c.callee.name == 'load' and 'Atomic' in c.callee.best and 'count' in (ds.access_path(c.args[0]) or []) and enum_variant_of(ds, c.args[1]) <= {'Acquire', 'SeqCst'})
